@@ -131,4 +131,52 @@ def generate(repo):
     out.append('(* PoissonGAM._exposure_to_weights: rate and weight handed to the base class *)')
     out.append('Definition Gen_exposure_rate (y e : R) : R := y / e.')
     out.append('Definition Gen_exposure_weight (w e : R) : R := w * e.')
+    # ---- deviance_residuals: sign(y - mu) * deviance ** 0.5 ; LogisticGAM.accuracy ; statistics table ; Wald recipe
+    fn = find_method(gam, 'deviance_residuals')
+    tail = [ast.unparse(s_) for s_ in strip_doc(fn.body)][-3:]
+    if tail != ['mu = self.predict_mu(X)', 'sign = np.sign(y - mu)',
+                'return sign * self.distribution.deviance(y, mu, weights=weights, scaled=scaled) ** 0.5']:
+        raise Unsupported('deviance_residuals changed: %r' % tail)
+    out.append('(* deviance_residuals: sign(y - mu) * sqrt(weighted deviance) *)')
+    out.append('Definition Gen_sign (x : R) : R := if Rltb 0 x then 1 else if Rltb x 0 then - 1 else 0.')
+    out.append('Definition Gen_deviance_residual (y mu dev : R) : R := Gen_sign (y - mu) * sqrt dev.')
+    lg = find_class(tree, 'LogisticGAM')
+    fn = find_method(lg, 'accuracy')
+    if ast.unparse(strip_doc(fn.body)[-1]) != 'return ((mu > 0.5).astype(int) == y).mean()':
+        raise Unsupported('LogisticGAM.accuracy changed')
+    out.append('(* LogisticGAM.accuracy: mean of [ (mu > 0.5) == y ] *)')
+    out.append('Definition Gen_accuracy_hit (y mu : R) : bool := Reqb (b2r (Rltb (1 / 2) mu)) y.')
+    fn = find_method(gam, '_estimate_model_statistics')
+    table = {}
+    for st in strip_doc(fn.body):
+        if isinstance(st, ast.Assign) and isinstance(st.targets[0], ast.Subscript) and ast.unparse(st.targets[0].value) == 'self.statistics_':
+            table[st.targets[0].slice.value] = ast.unparse(st.value)
+        if isinstance(st, ast.Assign) and isinstance(st.targets[0], ast.Tuple):
+            for e_ in st.targets[0].elts:
+                table[e_.slice.value] = ast.unparse(st.value)
+    expect = {
+        'edof_per_coef': 'np.diagonal(U1.dot(U1.T))', 'edof': "self.statistics_['edof_per_coef'].sum()",
+        'scale': 'self.distribution.scale', 'cov': 'B.dot(B.T) * self.distribution.scale', 'se': "self.statistics_['cov'].diagonal() ** 0.5",
+        'AIC': 'self._estimate_AIC(y=y, mu=mu, weights=weights)', 'AICc': 'self._estimate_AICc(y=y, mu=mu, weights=weights)',
+        'pseudo_r2': 'self._estimate_r2(y=y, mu=mu, weights=weights)',
+        'GCV': 'self._estimate_GCV_UBRE(modelmat=modelmat, y=y, weights=weights)', 'UBRE': 'self._estimate_GCV_UBRE(modelmat=modelmat, y=y, weights=weights)',
+        'loglikelihood': 'self._loglikelihood(y, mu, weights=weights)', 'deviance': 'self.distribution.deviance(y=y, mu=mu, weights=weights).sum()',
+        'p_values': 'self._estimate_p_values()'}
+    if table != expect:
+        raise Unsupported('_estimate_model_statistics changed: %r' % {k: v for k, v in table.items() if expect.get(k) != v})
+    scale_if = [st for st in strip_doc(fn.body) if isinstance(st, ast.If)]
+    if len(scale_if) != 1 or ast.unparse(scale_if[0].test) != 'not self.distribution._known_scale' or \
+            ast.unparse(scale_if[0].body[0]) != "self.distribution.scale = self.distribution.phi(y=y, mu=mu, edof=self.statistics_['edof'], weights=weights)":
+        raise Unsupported('scale estimation changed')
+    fn = find_method(gam, '_compute_p_value')
+    lines = [ast.unparse(s_) for s_ in strip_doc(fn.body)[1:]]
+    expect_p = ['idxs = self.terms.get_coef_indices(term_i)', "cov = self.statistics_['cov'][idxs][:, idxs]", 'coef = self.coef_[idxs]',
+                'if isinstance(self.terms[term_i], SplineTerm):\n    coef -= coef.mean()',
+                'inv_cov, rank = sp.linalg.pinv(cov, return_rank=True)', 'score = coef.T.dot(inv_cov).dot(coef)',
+                "if self.distribution._known_scale:\n    return 1 - sp.stats.chi2.cdf(x=score, df=rank)\nelse:\n    score = score / rank\n    return 1 - sp.stats.f.cdf(score, rank, self.statistics_['n_samples'] - self.statistics_['edof'])"]
+    if lines != expect_p:
+        raise Unsupported('_compute_p_value changed: %r' % lines)
+    out.append('(* _compute_p_value (recognised by shape): own covariance block, spline coefficients centred, Wald score = c\' pinv(cov) c;\n   known scale: 1 - chi2.cdf(score, rank); else 1 - F.cdf(score / rank, rank, n - edof) *)')
+    out.append('Definition Gen_wald_known (cdf_chi2 : R -> R -> R) (score rank : R) : R := 1 - cdf_chi2 score rank.')
+    out.append('Definition Gen_wald_unknown (cdf_f : R -> R -> R -> R) (score rank n edof : R) : R := 1 - cdf_f (score / rank) rank (n - edof).')
     return '\n'.join(out) + '\n'
